@@ -38,7 +38,7 @@ def run(ctx):
     RR.hit_filter(ctx, "R05.c")
     # "a query that contains a letter or digit" has at least one word: strip/split classes are what their names say
     RK.class_predicates(ctx, "R05.d")
-    RK.sibling_agreement(ctx, "R05.d", "R05.d", stages_too=False)
+    RK.sibling_agreement(ctx, "R05.d", "R05.d", stages_too=False, only=("query",))
     return info("R05.b: hits can only come from index candidates = enumerate positions whose freshly reset counter is > 0, counted "
                 "over the shared gram generator; R05.c: records without a word match are filtered out; R05.d: NotAlphaNum / split "
                 "classes are the std predicates, so a query with a letter or digit has a word. R05.a: the |qslice - rslice| gate on the path to WordMatch::new_pair is located by data-flow "
